@@ -230,6 +230,14 @@ func (stmt *Statement) AddVar(writer clause.Writer, vars ...interface{}) {
 					clause.Expr{SQL: sql, Vars: vars}.Build(subdb.Statement)
 				}
 			} else {
+				// scopes run first: one of them may hand back a session of its own, whose statement starts
+				// without the values bound so far
+				for len(subdb.Statement.scopes) > 0 {
+					subdb = subdb.executeScopes()
+				}
+				if subdb.clone > 0 {
+					subdb = subdb.getInstance()
+				}
 				subdb.Statement.Vars = append(stmt.Vars, subdb.Statement.Vars...)
 				subdb = subdb.callbacks.Query().Execute(subdb)
 			}
